@@ -39,7 +39,7 @@ def rand_img(rng, npr, ny, nx, kind):
 def correspond(ctx):
     rng, tier = ctx["rng"], ctx["tier"]
     npr = rng.nprng()
-    n = 40 if tier == "quick" else 300
+    n = 40 if tier == "quick" else 1500
     cases, meta = [], []
     def add(fn, expr, info):
         cases.append(expr); meta.append(dict(info, fn=fn))
